@@ -168,6 +168,70 @@ def run(chk: Check):
             chk.traces += 1
             if not np.all(np.isfinite(ov)):
                 chk.violation(site + ":overlap", f"initial walkers have non-finite trial overlap {ov}", {"instance": I["json"]})
+    # ---- ill-conditioned but full-column-rank walkers (prescribed singular values): the contract does not depend on
+    # how well conditioned the walker is
+    for cond in (1e2, 1e5, 1e7):
+        for (norb, nu, nd) in ((5, 3, 2), (6, 3, 3)):
+            nwk = 3
+            def illc(ne):
+                out = []
+                for _ in range(nwk):
+                    U = np.linalg.qr(rng.normal(size=(norb, ne)) + 1j * rng.normal(size=(norb, ne)))[0]
+                    V = np.linalg.qr(rng.normal(size=(ne, ne)) + 1j * rng.normal(size=(ne, ne)))[0]
+                    sv = np.geomspace(1.0, 1.0 / cond, ne)
+                    out.append(U @ np.diag(sv) @ V)
+                return np.array(out)
+            Au, Ad = illc(nu), illc(nd)
+            for name, fn in (("qr_vmap", lambda: (linalg_utils.qr_vmap(jnp.array(Au)), None)),
+                             ("qr_vmap_uhf", lambda: (None, linalg_utils.qr_vmap_uhf([jnp.array(Au), jnp.array(Ad)]))),
+                             ("restricted.orthonormalize_walkers", lambda: ((propagation.propagator_restricted(n_walkers=nwk).orthonormalize_walkers({"walkers": jnp.array(Au)})["walkers"], None), None))):
+                r1, r2 = fn()
+                pairs = []
+                if r1 is not None:
+                    pairs.append((Au, np.asarray(r1[0]), None if r1[1] is None else np.asarray(r1[1])))
+                else:
+                    pairs.append((Au, np.asarray(r2[0][0]), np.asarray(r2[1][0])))
+                    pairs.append((Ad, np.asarray(r2[0][1]), np.asarray(r2[1][1])))
+                for A, Q, f in pairs:
+                    for k in range(nwk):
+                        chk.case(("illcond", cond, name, norb, k, A.shape[2]))
+                        ne = A.shape[2]
+                        bad = None
+                        if not np.allclose(Q[k].conj().T @ Q[k], np.eye(ne), atol=1e-10):
+                            bad = f"columns not orthonormal: |Q^H Q - 1| = {np.max(np.abs(Q[k].conj().T @ Q[k] - np.eye(ne))):.2e}"
+                        elif np.linalg.norm(A[k] - Q[k] @ (Q[k].conj().T @ A[k])) > 1e-9 * np.linalg.norm(A[k]):
+                            bad = "column space changed"
+                        elif f is not None:
+                            rows = list(range(ne))
+                            da, dq = np.linalg.det(A[k][rows]), np.linalg.det(Q[k][rows])
+                            if abs(da - dq * f[k]) > 1e-8 * cond * 1e-7 * max(abs(da), 1e-300) + 1e-6 * abs(da):
+                                bad = f"leading minor: det A = {da} but det Q x norm = {dq * f[k]}"
+                        if bad:
+                            chk.violation(f"qr:{name}:ill-conditioned", f"{name} on a full-rank walker with condition number {cond:g} "
+                                          f"({norb} orbitals, {ne} electrons): {bad}", {"cond": cond, "norb": norb})
+    # ---- spin-broken single-determinant trials: restricted initial walkers must overlap the trial by more than the
+    # generator's own threshold (1e-3 for normalised orbitals) or the generator must refuse explicitly
+    from ad_afqmc import wavefunctions
+    for (norb, n) in ((4, 2), (6, 3)):
+        for c in (0.9, 0.3, 1e-2, 1e-4, 1e-6, 1e-8, 0.0):
+            th = np.arccos(c)
+            Cu = np.eye(norb)[:, :n]
+            Cd = np.eye(norb)[:, :n].copy()
+            Cd[:, n - 1] = np.cos(th) * np.eye(norb)[:, n - 1] + np.sin(th) * np.eye(norb)[:, n]
+            trial = wavefunctions.uhf(norb, (n, n))
+            wdx = {"mo_coeff": [jnp.array(Cu), jnp.array(Cd)]}
+            chk.case(("spin-broken", norb, c))
+            try:
+                w = trial.get_init_walkers(wdx, 2, restricted=True)
+            except ValueError:
+                chk.note("init_walkers_refused_explicitly", chk.extra.get("init_walkers_refused_explicitly", 0) + 1)
+                continue
+            ov = np.abs(np.asarray(trial.calc_overlap(w, wdx)))
+            orth = np.allclose(np.asarray(w[0]).conj().T @ np.asarray(w[0]), np.eye(n), atol=1e-10)
+            if not orth or not np.all(ov > 1e-3 * (1 - 1e-9)):
+                chk.violation("init:restricted:spin-broken-trial", f"restricted initial walkers for a spin-broken UHF trial ({norb} orbitals, "
+                              f"({n},{n}) electrons, <up|dn> determinant overlap {c:g}) have trial overlap {ov.tolist()} - not bounded "
+                              f"away from zero, and no error was raised", {"norb": norb, "n": n, "cos": c})
     for I in var_insts:
         if I["id"] not in res:
             continue
